@@ -5,10 +5,10 @@ open RedunModel RedunModel.CacheHist
 /- request (one history per line):
      hist (V <simpleExprValid T|F> <cseSubtreeFromDb T|F> <noCatchCache T|F>) (tbl (i<name> i<ver> <spec>)*) (steps <step>*)
      spec ::= (ret <tm>) | (raise i<cls>)
-     tm   ::= arg | numarg | i<int> | (file i<p>) | (add <tm> <tm>) | (call i<name> <tm>) | (catch <tm> i<cls> i<rec>)
+     tm   ::= arg | numarg | kindarg | i<int> | (file i<p>) | (add <tm> <tm>) | (call i<name> <tm>) | (catch <tm> i<cls> i<rec>)
      step ::= (step (code (i<name> i<ver> <shallow T|F> <pinned T|F>)*) (fs (i<p> i<stamp>)*) (root i<name> <val>)
                     (err (i<name> i<ver> <val>)*))     -- failed jobs whose rejection was processed (observed)
-     val  ::= i<int> | (file i<p> i<stamp>)
+     val  ::= i<int> | (file i<p> i<stamp>) | (prim i<tag> i<int>)   -- float z / -0.0 / bool, see `Val.prim`
    reply: one item per step joined by " ; ":   <res> | <called keys, in call order>
      res ::= ok:<val> | err:<cls> | fuel        key ::= <name>.<ver>(<val>)                                  -/
 
@@ -24,6 +24,7 @@ def boolA : Sexp → Option Bool
 partial def tmOf : Sexp → Option Tm
   | .atom "arg" => some .arg
   | .atom "numarg" => some .numarg
+  | .atom "kindarg" => some .kindarg
   | .atom a => (intOfAtom a).map .lit
   | .list [.atom "file", p] => (natA p).map .file
   | .list [.atom "add", a, b] => do pure (.add (← tmOf a) (← tmOf b))
@@ -39,6 +40,7 @@ def specOf : Sexp → Option Spec
 def valOf : Sexp → Option Val
   | .atom a => (intOfAtom a).map .int
   | .list [.atom "file", p, s] => do pure (.file (← natA p) (← natA s))
+  | .list [.atom "prim", t, .atom z] => do pure (.prim (← natA t) (← intOfAtom z))
   | _ => none
 
 def tblOf : List Sexp → Option (List (TH × Spec))
@@ -92,6 +94,7 @@ def showVal : Val → String
   | .int z => toString z
   | .file p s => s!"file({p},{s})"
   | .exc c => s!"exc({c})"
+  | .prim t z => s!"prim({t},{z})"
 
 def showRes : Res → String
   | .ok v => "ok:" ++ showVal v
